@@ -417,7 +417,7 @@ def nonmutator_calls(seed, n):
     return out
 
 
-def builtin_matrix(seed, n=None):
+def builtin_matrix(seed, n=None, plain_only=False):
     """Every entry of the builtin table applied to every tuple of <= 2 arguments (and sampled triples) from a pool of host
     values of every plain type and shape: None, booleans, ints, floats, Decimals, strings (empty, non-empty, numeric text),
     lists / tuples / dicts (empty, nested, int-keyed), a key function, plus one unmodelled object.  One call per scenario;
@@ -426,6 +426,8 @@ def builtin_matrix(seed, n=None):
     pool = {'vn': None, 'vt': True, 'vf': False, 'v0': 0, 'v1': 1, 'vm': -2, 'vb': 10 ** 20, 'vx': 1.5, 'vz': 0.0, 'vd': Decimal('2.5'), 've': Decimal('0'),
             'se': '', 'sa': 'ab c', 'sn': '12', 'le': [], 'l1': [3, 1, 2], 'ln': [[2, 'b'], [1, 'a'], [2, 'a']], 'ls': ['b', 'a'],
             'te': (), 't1': (1, [2]), 'de': {}, 'd1': {'b': 1, 'a': [2]}, 'di': {1: 'x', 'k': 2}, 'ob': _HostRecord(n=1)}
+    if plain_only:
+        del pool['ob']          # C02 is stated for hosts that bind plain data only
     names = sorted(pool)
     lams = ['v => v', '(p, q) => q', 'v => 0']
     fns = sorted(set(NONMUT) | {'push', 'pop', 'insert', 'remove', '__setitem__', '__delitem__', '__setitem_with_op__'})
